@@ -8,6 +8,9 @@ LEVEL_TEXT = ("static: decides that every transmission of a query is either char
               "repetition; that the exhausted-budget path completes the query; that floor/cap clamps of the timeout computations are present, "
               "ordered and final; that every variable shift amount is bounded below the operand width. Does not decide the numeric wait "
               "time as a quantity.")
+# fifth-round additions
+TECHNIQUE += "; " + "A-DOM fact 'query not yet on TCP' at the switch to TCP"
+LEVEL_TEXT += " " + "(RESEND) the UDP-to-TCP upgrade happens once per query: the TC arm is guarded by 'not already on TCP'."
 LEVEL_NOTE = "trusts clang CFG + extractor; interval reasoning uses only dominating comparisons, type ranges and constant call arguments"
 DESIGN_REF = "DESIGN.md §6/C06"
 EXPLANATION = LEVEL_TEXT
